@@ -114,8 +114,9 @@ func (c *syncMap) ExpireAll(ctx context.Context) {
 	c.data.Range(func(key, value interface{}) bool {
 		cacheEntry := value.(*TraitEntry) //nolint // Panic on type assertion failure is fine here.
 
-		atomic.StoreInt64(&cacheEntry.E, startTS)
-		cnt++
+		if c.expireEntry(key, cacheEntry, startTS) {
+			cnt++
+		}
 
 		return true
 	})
